@@ -47,6 +47,11 @@ var wordPool = []string{"alpha", "bravo", "cargo", "delta", "ember", "frost", "g
 	"joker", "kilo", "lima", "metro", "nova", "omega", "pixel", "quark", "radio", "sigma", "tango",
 	"ultra", "vista", "whisk", "xenon", "yield", "zebra", "user", "http", "url", "id", "json", "api", "uuid", "ip", "xml"}
 
+// plainFieldNames are field names without a serial number (none of them Go-cases to a method of
+// the generated types; not "key" / "value": the log of a map with non-string keys has entries of
+// that name, which the C15 token extractor could not tell from fields).
+var plainFieldNames = []string{"message", "msg", "name", "code", "reason", "text", "detail", "data", "status", "cause", "info", "payload"}
+
 // fresh returns a new identifier in a random style whose Go-cased form is unique.
 func (g *generator) fresh(style int) string {
 	for {
@@ -451,13 +456,23 @@ func (g *generator) genType(f *File, depth int, fwd []*Def) *Type {
 	}
 	switch r.Intn(3) {
 	case 0:
-		return &Type{K: List, Elem: g.genType(f, depth-1, fwd)}
+		t := &Type{K: List, Elem: g.genType(f, depth-1, fwd)}
+		if r.Chance(1, 8) {
+			t.Ann = `go.type = "slice"`
+		}
+		return t
 	case 1:
 		t := &Type{K: Set, Elem: g.genType(f, depth-1, fwd)}
 		t.Slice = r.Chance(1, 4)
+		if !t.Slice && r.Chance(1, 8) {
+			t.Ann = []string{`go.type = "map"`, `go.type = "Slice"`, `cpp.type = "slice"`}[r.Intn(3)]
+		}
 		return t
 	}
 	t := &Type{K: Map, Elem: g.genType(f, depth-1, fwd)}
+	if r.Chance(1, 5) {
+		t.Ann = `go.type = "slice"`
+	}
 	if r.Chance(2, 3) {
 		// hashable key, biased to strings and ints
 		t.Key = g.genType(f, 0, nil)
@@ -492,9 +507,31 @@ func (g *generator) genFields(f *File, d *Def, fwd []*Def) {
 	if d.Kind == Union && n == 0 && !r.Chance(1, 8) {
 		n = 1 // an empty union is legal (and has no arity check) but rare
 	}
+	// the conventional shape of an exception: a string field called message
+	wantMsg := d.Kind == Exception && r.Chance(2, 3)
+	if wantMsg && n == 0 {
+		n = 1
+	}
 	ids := map[int]bool{}
+	plain := map[string]bool{}
 	for i := 0; i < n; i++ {
 		fl := &Field{Name: g.fieldName()}
+		// now and then a name people actually give fields, without a serial number: code that
+		// treats a field specially because of what it is called must still honour the rest of
+		// the contract (annotations, requiredness, defaults) for it
+		if r.Chance(1, 7) {
+			w := plainFieldNames[r.Intn(len(plainFieldNames))]
+			switch r.Intn(4) {
+			case 0:
+				w = strings.Title(w)
+			case 1:
+				w = strings.ToUpper(w)
+			}
+			if !plain[GoCase(w)] {
+				plain[GoCase(w)] = true
+				fl.Name = w
+			}
+		}
 		for {
 			switch r.Intn(8) {
 			case 0:
@@ -526,6 +563,13 @@ func (g *generator) genFields(f *File, d *Def, fwd []*Def) {
 				continue
 			}
 			break
+		}
+		if wantMsg && i == 0 {
+			w := []string{"message", "Message", "MESSAGE", "message"}[r.Intn(4)]
+			if !plain[GoCase(w)] {
+				plain[GoCase(w)] = true
+				fl.Name, fl.Type = w, &Type{K: String}
+			}
 		}
 		g.annotateField(fl)
 		if d.Kind != Union && r.Chance(g.cfg.DefaultPct, 100) && fieldDefaultOK(fl.Type) {
